@@ -26,10 +26,28 @@ type isoCfg struct {
 	Immutable  bool
 	CaseSens   bool
 	Strict     bool
+	NoMW       bool // no catch-all middleware: unrouted requests never enter a route
+	EHState    bool // the ErrorHandler leaves per-request state (ViewBind, Redirect().With, Bind helper)
+	Touch      bool // every routed handler first looks at BaseURL/Scheme/Host/… and negotiates Accept*
+	Trust      int  // 0 TrustProxy off (forwarding headers honoured); 1 on, peer trusted; 2 on, peer not trusted
+	ProxyHdr   bool // ProxyHeader = X-Forwarded-For
+}
+
+// widen draws the configuration dimensions added after the first round.
+func (c *isoCfg) widen(r interface {
+	Chance(int, int) bool
+	Intn(int) int
+}) {
+	c.NoMW = r.Chance(1, 2)
+	c.EHState = r.Chance(1, 2)
+	c.Touch = r.Chance(1, 2)
+	c.Trust = r.Intn(3)
+	c.ProxyHdr = r.Chance(1, 3)
 }
 
 func (c isoCfg) String() string {
-	return fmt.Sprintf("custom=%v passlocals=%v immutable=%v cs=%v strict=%v", c.Custom, c.PassLocals, c.Immutable, c.CaseSens, c.Strict)
+	return fmt.Sprintf("custom=%v passlocals=%v immutable=%v cs=%v strict=%v nomw=%v ehstate=%v touch=%v trust=%d proxyhdr=%v",
+		c.Custom, c.PassLocals, c.Immutable, c.CaseSens, c.Strict, c.NoMW, c.EHState, c.Touch, c.Trust, c.ProxyHdr)
 }
 
 type customCtx struct {
@@ -56,12 +74,56 @@ type localKeyT int
 var localStrKeys = []string{"user", "reqid", "secret", "mw"}
 
 type isoSink struct {
-	ptrs     []string // ctx pointer at every handler-chain entry and every ErrorHandler call
+	ptrs     []ptrEntry // pooled object + request identity at every handler entry / ErrorHandler call
 	probes   int
 	vec      map[string]string // component -> canonical JSON
 	reused   bool
 	lastBind string // what the Views engine received last
 	renders  int
+}
+
+type ptrEntry struct {
+	ptr  string
+	conn uint64
+	num  uint64
+}
+
+// note logs which pooled object serves which request.
+func (s *isoSink) note(c fiber.Ctx) {
+	fc := c.RequestCtx()
+	s.ptrs = append(s.ptrs, ptrEntry{ctxPtr(c), fc.ConnID(), fc.ConnRequestNum()})
+}
+
+// seenBefore: did the object serving c serve another request of this app earlier?
+func (s *isoSink) seenBefore(c fiber.Ctx) bool {
+	fc := c.RequestCtx()
+	me := ctxPtr(c)
+	for _, e := range s.ptrs {
+		if e.ptr == me && (e.conn != fc.ConnID() || e.num != fc.ConnRequestNum()) {
+			return true
+		}
+	}
+	return false
+}
+
+// offers with media-type parameters, used wherever a handler negotiates
+var negoOffers = []string{"text/plain;format=flowed", "application/json", "text/html;level=1", "application/json;version=2"}
+
+// touch is what an ordinary handler does first: look at where the request came from and what
+// the client accepts.
+func touch(c fiber.Ctx) {
+	_ = c.BaseURL()
+	_ = c.Scheme()
+	_ = c.Host()
+	_ = c.Hostname()
+	_ = c.Protocol()
+	_ = c.Secure()
+	_ = c.IP()
+	_ = c.IPs()
+	_ = c.Accepts(negoOffers...)
+	_ = c.AcceptsCharsets("utf-8", "iso-8859-1")
+	_ = c.AcceptsEncodings("gzip", "br")
+	_ = c.AcceptsLanguages("en", "de-CH")
 }
 
 type capViews struct{ s *isoSink }
@@ -248,9 +310,30 @@ func isoBuild(cfg isoCfg) (*fiber.App, *isoSink) {
 		CaseSensitive:     cfg.CaseSens,
 		StrictRouting:     cfg.Strict,
 		ErrorHandler: func(c fiber.Ctx, err error) error {
-			s.ptrs = append(s.ptrs, ctxPtr(c))
+			s.note(c)
+			if cfg.EHState {
+				// an error page that is rendered with bindings, remembers the failure as a flash
+				// message for a redirect it may issue, and inspects the request
+				_ = c.ViewBind(fiber.Map{"errpath": "at-" + c.Path(), "errmsg": err.Error(), "title": "error page"})
+				c.Redirect().Status(303).With("failed", "at-"+c.Path(), 0x45)
+				var q bindQ
+				_ = c.Bind().WithAutoHandling().Query(&q)
+				c.Status(fiber.StatusOK)
+				touch(c)
+			}
 			return fiber.DefaultErrorHandler(c, err)
 		},
+	}
+	switch cfg.Trust {
+	case 1:
+		fc.TrustProxy = true
+		fc.TrustProxyConfig = fiber.TrustProxyConfig{Proxies: []string{"203.0.113.7"}}
+	case 2:
+		fc.TrustProxy = true
+		fc.TrustProxyConfig = fiber.TrustProxyConfig{Proxies: []string{"198.51.100.1"}}
+	}
+	if cfg.ProxyHdr {
+		fc.ProxyHeader = fiber.HeaderXForwardedFor
 	}
 	app := fiber.New(fc)
 	if cfg.Custom {
@@ -260,24 +343,37 @@ func isoBuild(cfg isoCfg) (*fiber.App, *isoSink) {
 	}
 
 	// entry middleware: logs which pooled object serves the request
-	app.Use(func(c fiber.Ctx) error {
-		s.ptrs = append(s.ptrs, ctxPtr(c))
-		return c.Next()
-	})
+	if !cfg.NoMW {
+		app.Use(func(c fiber.Ctx) error {
+			s.note(c)
+			return c.Next()
+		})
+	}
+	// w wraps every route handler: pointer logging (also when there is no middleware) and, if
+	// configured, the usual look at the request's origin and Accept headers
+	w := func(h fiber.Handler) fiber.Handler {
+		return func(c fiber.Ctx) error {
+			s.note(c)
+			if cfg.Touch {
+				touch(c)
+			}
+			return h(c)
+		}
+	}
 
 	// --- history routes -------------------------------------------------------------------
-	app.Get(manyParamsRoute, func(c fiber.Ctx) error {
+	app.Get(manyParamsRoute, w(func(c fiber.Ctx) error {
 		var sb strings.Builder
 		for _, p := range c.Route().Params {
 			sb.WriteString(c.Params(p))
 			sb.WriteByte('|')
 		}
 		return c.SendString(sb.String())
-	})
+	}))
 
 	// sets Locals (string and non-string keys), ViewBind, optionally renders; optionally passes on
 	// to a chain that ends in 404.
-	app.All("/locals/:id", func(c fiber.Ctx) error {
+	app.All("/locals/:id", w(func(c fiber.Ctx) error {
 		id := c.Params("id")
 		c.Locals("user", "user-"+id)
 		c.Locals("reqid", id)
@@ -296,10 +392,10 @@ func isoBuild(cfg isoCfg) (*fiber.App, *isoSink) {
 			return errors.New("boom-" + id)
 		}
 		return c.SendString("locals " + id)
-	})
+	}))
 
 	// Redirect().Status(301).With(k,v,level).WithInput().To()
-	app.All("/redir/:id", func(c fiber.Ctx) error {
+	app.All("/redir/:id", w(func(c fiber.Ctx) error {
 		id := c.Params("id")
 		lvl, _ := strconv.Atoi(c.Query("lvl", "64"))
 		rd := c.Redirect().Status(301)
@@ -313,17 +409,17 @@ func isoBuild(cfg isoCfg) (*fiber.App, *isoSink) {
 		c.Set("X-Hist", "redir-"+id)
 		_ = c.BaseURL()
 		return rd.To("/dest/" + id)
-	})
+	}))
 
 	// consumes whatever flash cookie came with the request
-	app.All("/flash", func(c fiber.Ctx) error {
+	app.All("/flash", w(func(c fiber.Ctx) error {
 		ms := c.Redirect().Messages()
 		oi := c.Redirect().OldInputs()
 		return c.SendString(canon(ms) + canon(oi))
-	})
+	}))
 
 	// binds that may fail half-way, with and without automatic error handling
-	app.All("/bind", func(c fiber.Ctx) error {
+	app.All("/bind", w(func(c fiber.Ctx) error {
 		b := c.Bind()
 		if c.Query("auto") == "1" {
 			b = b.WithAutoHandling()
@@ -349,9 +445,9 @@ func isoBuild(cfg isoCfg) (*fiber.App, *isoSink) {
 			return e1
 		}
 		return c.SendString(fmt.Sprint(q, h, ck, body, m, errStr(e1), errStr(e2), errStr(e3), errStr(e4), errStr(e5)))
-	})
+	}))
 
-	app.Get("/err/:code", func(c fiber.Ctx) error {
+	app.Get("/err/:code", w(func(c fiber.Ctx) error {
 		code, _ := strconv.Atoi(c.Params("code"))
 		c.Set("X-Hist", "err")
 		c.Locals("secret", "err-secret")
@@ -359,35 +455,35 @@ func isoBuild(cfg isoCfg) (*fiber.App, *isoSink) {
 			return errors.New("plain failure")
 		}
 		return fiber.NewError(code, "failure "+c.Params("code"))
-	})
+	}))
 
-	app.Get("/base", func(c fiber.Ctx) error {
+	app.Get("/base", w(func(c fiber.Ctx) error {
 		c.Set("X-Base", c.BaseURL())
 		c.Cookie(&fiber.Cookie{Name: "hist", Value: "set-by-base"})
 		return c.Status(202).SendString(c.BaseURL() + " " + c.Hostname())
-	})
+	}))
 
-	app.Get("/getonly", func(c fiber.Ctx) error { return c.SendString("getonly") })
+	app.Get("/getonly", w(func(c fiber.Ctx) error { return c.SendString("getonly") }))
 
 	// path / method override inside a handler
-	app.Get("/override/:id", func(c fiber.Ctx) error {
+	app.Get("/override/:id", w(func(c fiber.Ctx) error {
 		c.Locals("user", "override")
 		c.Path("/many/o1/o2/o3/o4/o5/o6/o7/o8/o9/o10")
 		return c.RestartRouting()
-	})
+	}))
 
 	// binds the multi-named struct from the sources listed in ?src=a.b.c
-	app.All("/xbind/:a/:b", func(c fiber.Ctx) error {
+	app.All("/xbind/:a/:b", w(func(c fiber.Ctx) error {
 		var sb strings.Builder
 		for _, src := range strings.Split(c.Query("src"), ".") {
 			x, err := bindX(c, src)
 			sb.WriteString(fmt.Sprintf("%s:%+v:%s;", src, x, errStr(err)))
 		}
 		return c.SendString(sb.String())
-	})
+	}))
 
 	// configures a Redirect and then does not complete it (or completes it in an unusual way)
-	app.All("/redirfail/:id", func(c fiber.Ctx) error {
+	app.All("/redirfail/:id", w(func(c fiber.Ctx) error {
 		id := c.Params("id")
 		st, _ := strconv.Atoi(c.Query("status", "303"))
 		rd := c.Redirect().Status(st)
@@ -403,14 +499,14 @@ func isoBuild(cfg isoCfg) (*fiber.App, *isoSink) {
 			return fiber.NewError(409, "gave up redirecting "+id)
 		}
 		return c.SendString("not redirected " + id)
-	})
+	}))
 
-	app.Get("/named/:id", func(c fiber.Ctx) error { return c.SendString("named " + c.Params("id")) }).Name("named")
+	app.Get("/named/:id", w(func(c fiber.Ctx) error { return c.SendString("named " + c.Params("id")) })).Name("named")
 
 	// SendFile with configs that differ in single options; ?probe=1 makes it the probe
 	dir := fileDir()
 	variants := sendFileVariants(dir)
-	app.Get("/file/:v", func(c fiber.Ctx) error {
+	app.Get("/file/:v", w(func(c fiber.Ctx) error {
 		vi, _ := strconv.Atoi(c.Params("v"))
 		if vi < 0 || vi >= len(variants) {
 			return fiber.ErrNotFound
@@ -424,11 +520,8 @@ func isoBuild(cfg isoCfg) (*fiber.App, *isoSink) {
 		}
 		if isProbe {
 			s.probes++
-			me := ctxPtr(c)
-			for _, p := range s.ptrs[:max(len(s.ptrs)-1, 0)] {
-				if p == me {
-					s.reused = true
-				}
+			if s.seenBefore(c) {
+				s.reused = true
 			}
 		}
 		err := c.SendFile(path, cfg)
@@ -436,17 +529,13 @@ func isoBuild(cfg isoCfg) (*fiber.App, *isoSink) {
 			s.vec = map[string]string{"sendfile-error": canon(errStr(err))}
 		}
 		return err
-	})
+	}))
 
 	// --- the probe ------------------------------------------------------------------------
 	probe := func(c fiber.Ctx) error {
 		s.probes++
-		me := ctxPtr(c)
-		// the entry middleware of this very request logged `me` last
-		for _, p := range s.ptrs[:max(len(s.ptrs)-1, 0)] {
-			if p == me {
-				s.reused = true
-			}
+		if s.seenBefore(c) {
+			s.reused = true
 		}
 		v := map[string]string{}
 
@@ -543,6 +632,30 @@ func isoBuild(cfg isoCfg) (*fiber.App, *isoSink) {
 		v["route-path"] = canon(c.Route().Path)
 		v["base-url"] = canon(c.BaseURL())
 		v["method"] = canon(c.Method())
+		v["origin"] = canon(map[string]any{"hostname": c.Hostname(), "secure": c.Secure(), "ips": c.IPs(), "port": c.Port(),
+			"local": c.IsFromLocal(), "trusted": c.IsProxyTrusted(), "subdomains": c.Subdomains(), "xhr": c.XHR()})
+		{
+			ran := ""
+			mk := func(name string) fiber.Handler {
+				return func(fiber.Ctx) error { ran = name; return nil }
+			}
+			ferr := c.Format(
+				fiber.ResFmt{MediaType: "text/plain;format=flowed", Handler: mk("flowed")},
+				fiber.ResFmt{MediaType: "application/json", Handler: mk("json")},
+				fiber.ResFmt{MediaType: "text/html;level=1", Handler: mk("html1")},
+			)
+			v["negotiation"] = canon(map[string]any{
+				"accepts":   c.Accepts(negoOffers...),
+				"accepts2":  c.Accepts("text/html;level=1", "text/plain;format=flowed"),
+				"accepts3":  c.Accepts("html", "json", "txt"),
+				"charsets":  c.AcceptsCharsets("utf-8", "iso-8859-1"),
+				"encodings": c.AcceptsEncodings("gzip", "br"),
+				"languages": c.AcceptsLanguages("en", "de-CH"),
+				"format":    ran, "format-err": errStr(ferr), "format-status": c.Response().StatusCode(),
+			})
+			c.Status(200)
+			c.Response().ResetBody()
+		}
 		v["request-line"] = canon(map[string]any{"path": c.Path(), "url": c.OriginalURL(), "host": c.Host(),
 			"ip": c.IP(), "scheme": c.Scheme(), "proto": c.Protocol()})
 
@@ -585,7 +698,7 @@ func isoBuild(cfg isoCfg) (*fiber.App, *isoSink) {
 		return c.SendString(sb.String())
 	}
 	for _, p := range probeRoutes {
-		app.All(p, probe)
+		app.All(p, w(probe))
 	}
 	return app, s
 }
